@@ -101,7 +101,7 @@ JOBLIFE = {
     "vh": "joblife",
     "design": {
         "quick": _jl_design(["core", "foreign", "crash", "ext", "reject"], 600),
-        "thorough": _jl_design(["core", "kill0", "kill1", "fault", "del", "ext", "crash", "any2", "all2", "foreign", "forbid", "lagq", "reject", "hold", "rekill"], 2400),
+        "thorough": _jl_design(["core", "kill0", "kill1", "fault", "del", "ext", "crash", "any2", "all2", "foreign", "forbid", "lagq", "reject", "hold", "rekill", "invalid"], 2400),
     },
     "sim": {"quick": _jl_sims(12), "thorough": _jl_sims(400)},
     # directed schedules: breadth-first search for goal states of JobLife_Goal.tla, replayed and continued with random steps
